@@ -14,7 +14,9 @@
 (*   h  hex letter that is not an escape name (A B)   a  hex letter that   *)
 (*   is an escape name (a b)   n  escape-name letter (n t v r N L P)       *)
 (*   xc uc Uc  the letters x u U (escape codes of 2, 4, 8 hex digits)      *)
-(*   0 1 2 3   digits     u  non-ASCII printable (incl. non-ASCII digits)  *)
+(*   0 .. 9    digits     u  non-ASCII printable    nd  non-ASCII digit     *)
+(*   (superscripts, circled, Arabic-Indic, fullwidth: the code tests ASCII  *)
+(*   digits only, so nd is in no class of its own and behaves like u)      *)
 (*   sp tab lf cr nel ls ps bom   np  non-printable (reader error)         *)
 (*   - ? : , [ ] { } # & * ! | > ' dq % @ bt bs . < + _ /                  *)
 (*   up  URI punctuation ; = $ ~ ( )     o  other ASCII punctuation ^      *)
@@ -34,7 +36,8 @@
 (* VALUES.  Token values are sequences of items: q > 0 copy of input       *)
 (* symbol number q; NLc a line feed produced by normalisation; SPc the     *)
 (* space of a folded break; 10000+q the character denoted by the escape    *)
-(* whose designator is symbol q; 20000+q the byte of URI escape q.         *)
+(* whose designator is symbol q; 20000+q the byte of URI escape q;          *)
+(* 30000+q the two hex digits of macro q read as plain characters.         *)
 (*                                                                         *)
 (* PARTIAL OPERATIONS.  Everything that would be a Python exception other  *)
 (* than ScannerError / ReaderError is an explicit "crash" result: chr()    *)
@@ -45,31 +48,85 @@
 EXTENDS Integers, Sequences, FiniteSets, TLC
 TG == INSTANCE TokenGrammar
 
-CONSTANTS Alphabet,     \* symbols the environment may append
-          PrefixName,   \* fixed beginning of every input (focus configurations), a key of PrefixTable
-          MaxLen,       \* symbols appended after Prefix
+CONSTANTS Focuses,      \* names of the focus configurations (rows of FocusTable) to explore in this run
+          Thorough,     \* BOOLEAN: use the larger bound of each focus
           MaxKey,       \* 1024 in the code
-          Fine          \* TRUE: scan_to_next_token / stale / unwind are separate steps; FALSE: one Prepare step
+          FixD1,        \* model of fix_proposals/D1.diff: escape codes above 0x10FFFF are a ScannerError
+          FixD10,       \* model of fix_proposals/D10.diff: version numbers of more than 9 digits are a ScannerError
+          Fine          \* TRUE: one step per method (design check); FALSE: one step per input (enumeration)
 
-\* (a configuration file cannot contain a tuple, hence the table)
-Prefix == CASE PrefixName = "none"   -> <<>>
-            [] PrefixName = "dq"     -> <<"dq">>
-            [] PrefixName = "dqbs"   -> <<"dq", "bs">>
-            [] PrefixName = "sq"     -> <<"'">>
-            [] PrefixName = "yaml"   -> <<"%", "YAML", "sp">>
-            [] PrefixName = "tagdir" -> <<"%", "TAG", "sp", "!">>
-            [] PrefixName = "dir"    -> <<"%">>
-            [] PrefixName = "tag"    -> <<"!">>
-            [] PrefixName = "verb"   -> <<"!", "<">>
-            [] PrefixName = "lit"    -> <<"|">>
-            [] PrefixName = "fold"   -> <<">">>
-            [] PrefixName = "seqlit" -> <<"-", "sp", "|">>
-            [] PrefixName = "flow"   -> <<"[">>
-            [] PrefixName = "map"    -> <<"w", ":", "lf">>
-            [] PrefixName = "amp"    -> <<"&">>
+(***************************************************************************)
+(* Focus configurations: every input is  prefix \o (any string of at most  *)
+(* n (quick) or m (thorough) symbols over the alphabet a).  The table is   *)
+(* part of the specification because a configuration file cannot contain   *)
+(* a tuple, and because one TLC run explores all chosen rows.              *)
+(*   struct .. cont       C03 / C09: the scanner's corners                 *)
+(*   dstruct, dindic      design check (Fine = TRUE), every action fires   *)
+(*   p*                   C06: portable alphabets (LoadPipe.tla)           *)
+(*   file                 inputs come from a file (LoadPipe.tla)           *)
+(***************************************************************************)
+Structural == {"w", "sp", "lf", "-", "?", ":", ",", "[", "]", "{", "}", "#"}
+FocusTable == [
+  struct   |-> [p |-> <<>>, n |-> 4, m |-> 5, a |-> Structural],
+  struct2  |-> [p |-> <<>>, n |-> 1, m |-> 5, a |-> {"w", "sp", "lf", "-", ":", "[", "]", ","}],
+  block    |-> [p |-> <<>>, n |-> 5, m |-> 6, a |-> {"w", "sp", "lf", "-", ":", "?"}],
+  indic    |-> [p |-> <<>>, n |-> 3, m |-> 4, a |-> {"&", "*", "!", "|", ">", "'", "dq", "%", "@", "bt", "w", "lf", ".", ":", "sp", "-"}],
+  breaks   |-> [p |-> <<>>, n |-> 3, m |-> 4, a |-> {"w", "sp", "lf", "cr", "nel", "ls", "ps", "bom", "np", "tab", ":", "-", "#"}],
+  docs     |-> [p |-> <<>>, n |-> 5, m |-> 7, a |-> {"-", ".", "w", "lf", "sp"}],
+  dquote   |-> [p |-> <<"dq">>, n |-> 4, m |-> 5, a |-> {"w", "sp", "lf", "dq", "bs", "n", "-", "tab"}],
+  escape   |-> [p |-> <<"dq", "bs">>, n |-> 2, m |-> 3,
+                a |-> {"xc", "uc", "Uc", "0", "1", "h", "a", "X2", "U4", "U4s", "U8", "U8s", "U8big", "U8huge", "dq", "w", "lf",
+                       "sp", "/", "_", "bs", "tab", "u", "nd", "9"}],
+  hex      |-> [p |-> <<"dq", "bs">>, n |-> 4, m |-> 5, a |-> {"xc", "uc", "Uc", "0", "1", "h", "dq"}],
+  squote   |-> [p |-> <<"'">>, n |-> 3, m |-> 5, a |-> {"w", "sp", "lf", "dq", "bs", "'", ".", "-", "cr"}],
+  yamldir  |-> [p |-> <<"%", "YAML", "sp">>, n |-> 3, m |-> 4, a |-> {"1", "2", "0", ".", "sp", "lf", "#", "w", "DBIG", "u", "nd"}],
+  dir      |-> [p |-> <<"%">>, n |-> 3, m |-> 4, a |-> {"YAML", "TAG", "w", "sp", "lf", "!", "1", ".", "-", "#", "P1", "u", "tab"}],
+  tagdir   |-> [p |-> <<"%", "TAG", "sp", "!">>, n |-> 3, m |-> 4, a |-> {"w", "!", "sp", "lf", "%", "P1", "Pbad", "1", "h", "#"}],
+  tag      |-> [p |-> <<"!">>, n |-> 3, m |-> 4,
+                a |-> {"w", "!", "sp", "lf", "%", "P1", "P2a", "P2b", "Pbad", "<", ">", "tab", ",", "1", "a"}],
+  verbatim |-> [p |-> <<"!", "<">>, n |-> 3, m |-> 4, a |-> {"w", "!", "sp", ">", "P1", "P2a", "P2b", "Pbad", "up", "lf", "{", "u"}],
+  literal  |-> [p |-> <<"|">>, n |-> 4, m |-> 5, a |-> {"w", "sp", "lf", "-", "+", "1", "nd"}],
+  folded   |-> [p |-> <<">">>, n |-> 3, m |-> 5, a |-> {"w", "sp", "lf", "2", "0", "#", "tab", "cr", "ls"}],
+  seqlit   |-> [p |-> <<"-", "sp", "|">>, n |-> 4, m |-> 5, a |-> {"w", "sp", "lf", "1", "nel", "-", ":"}],
+  mapblock |-> [p |-> <<"w", ":", "lf">>, n |-> 4, m |-> 5, a |-> {"w", "sp", "lf", ">", "|", "-", ":", "3"}],
+  anchors  |-> [p |-> <<>>, n |-> 3, m |-> 4,
+                a |-> {"&", "*", "w", "sp", "lf", ":", "-", "_", "1", "u", "@", "bt", "%", "tab", "]", ",", "nd"}],
+  longkey  |-> [p |-> <<>>, n |-> 4, m |-> 5, a |-> {"L", "w", ":", "sp", "lf", "?", "["}],
+  flowkeys |-> [p |-> <<"[">>, n |-> 3, m |-> 5, a |-> {"w", ":", ",", "?", "]", "[", "{", "}", "lf", "sp"}],
+  cont     |-> [p |-> <<"w", "lf", "sp">>, n |-> 4, m |-> 5, a |-> {"-", ".", "w", "sp", "lf", ":", "#"}],
+  dstruct  |-> [p |-> <<>>, n |-> 3, m |-> 4, a |-> Structural],
+  dindic   |-> [p |-> <<>>, n |-> 3, m |-> 4, a |-> {"&", "*", "!", "|", ">", "'", "dq", "%", "@", "w", "lf", ".", "sp"}],
+  pstruct  |-> [p |-> <<>>, n |-> 3, m |-> 4, a |-> Structural],
+  pstruct8 |-> [p |-> <<>>, n |-> 4, m |-> 5, a |-> {"w", "sp", "lf", "-", ":", "[", "]", ","}],
+  pblock   |-> [p |-> <<>>, n |-> 4, m |-> 6, a |-> {"w", "sp", "lf", "-", ":", "?"}],
+  pflow    |-> [p |-> <<"[">>, n |-> 3, m |-> 4, a |-> {"w", ":", ",", "?", "]", "[", "{", "}", "lf", "sp"}],
+  pbreaks  |-> [p |-> <<>>, n |-> 3, m |-> 4, a |-> {"w", "sp", "lf", "cr", "nel", "ls", "ps", ":", "-", "#"}],
+  pdocs    |-> [p |-> <<>>, n |-> 4, m |-> 6, a |-> {"-", ".", "w", "lf", "sp"}],
+  pdquote  |-> [p |-> <<"dq">>, n |-> 3, m |-> 4, a |-> {"w", "sp", "lf", "dq", "bs", "n", "'", "-", "nel", "ls"}],
+  psquote  |-> [p |-> <<"'">>, n |-> 3, m |-> 4, a |-> {"w", "sp", "lf", "dq", "bs", "'", ".", "-", "cr", "ps"}],
+  pescape  |-> [p |-> <<"dq", "bs">>, n |-> 2, m |-> 3,
+                a |-> {"xc", "uc", "Uc", "0", "1", "h", "a", "X2", "U4", "U8", "dq", "w", "lf", "sp", "/", "_", "bs", "u", "n"}],
+  pyamldir |-> [p |-> <<"%", "YAML", "sp", "1", ".", "1">>, n |-> 4, m |-> 5, a |-> {"lf", "-", "sp", "w", "#", ":", "."}],
+  ptagdoc  |-> [p |-> <<"%", "TAG", "sp", "!", "w", "!", "sp", "w", ":", "lf", "-", "-", "-", "sp">>, n |-> 4, m |-> 5,
+                a |-> {"!", "w", ":", "sp", "lf", "1"}],
+  ptag     |-> [p |-> <<"!">>, n |-> 3, m |-> 4, a |-> {"w", "!", "sp", "lf", "P1", "P2a", "P2b", "<", ">", ":", "1", ".", ","}],
+  pliteral |-> [p |-> <<"|">>, n |-> 3, m |-> 5, a |-> {"w", "sp", "lf", "-", "+", "1", "#"}],
+  pfolded  |-> [p |-> <<">">>, n |-> 3, m |-> 5, a |-> {"w", "sp", "lf", "2", "-", "cr", "ls", "nel"}],
+  pseqlit  |-> [p |-> <<"-", "sp", "|">>, n |-> 3, m |-> 4, a |-> {"w", "sp", "lf", "1", "nel", "-", ":"}],
+  pmapblock |-> [p |-> <<"w", ":", "lf">>, n |-> 3, m |-> 4, a |-> {"w", "sp", "lf", ">", "|", "-", ":", "3"}],
+  panchors |-> [p |-> <<>>, n |-> 3, m |-> 4, a |-> {"&", "*", "w", "sp", "lf", ":", "-", "1", ",", "[", "]"}],
+  pcont    |-> [p |-> <<"w", "lf", "sp">>, n |-> 4, m |-> 5, a |-> {"-", ".", "w", "sp", "lf", ":", "#"}],
+  pindic   |-> [p |-> <<>>, n |-> 3, m |-> 3, a |-> {"&", "*", "!", "|", ">", "'", "dq", "%", "@", "bt", "w", "lf", ".", ":", "sp", "-"}],
+  file     |-> [p |-> <<>>, n |-> 0, m |-> 0, a |-> {}]]
 
-VARIABLES inp, pc, rd, done, flow, toks, taken, indent, indents, ask, keys, out, res, err, mon, path
-vars == <<inp, pc, rd, done, flow, toks, taken, indent, indents, ask, keys, out, res, err, mon, path>>
+\* a run of 4301 digits is only followed where the scanner reads a number as a whole (see design_parts/C03.md)
+ASSUME \A f \in Focuses : "DBIG" \in FocusTable[f].a => FocusTable[f].a \cap {"bs", "|", ">", "%", "!"} = {}
+
+VARIABLES focus, inp, pc, rd, done, flow, toks, taken, indent, indents, ask, keys, out, res, err, mon, path
+vars == <<focus, inp, pc, rd, done, flow, toks, taken, indent, indents, ask, keys, out, res, err, mon, path>>
+Prefix == FocusTable[focus].p
+Alphabet == FocusTable[focus].a
+MaxLen == IF Thorough THEN FocusTable[focus].m ELSE FocusTable[focus].n
 
 (***************************************************************************)
 (* alphabet classes (the literal character sets of scanner.py)             *)
@@ -77,11 +134,12 @@ vars == <<inp, pc, rd, done, flow, toks, taken, indent, indents, ask, keys, out,
 AlnumMacro == {"X2", "U4", "U4s", "U8", "U8s", "U8big", "U8huge", "YAML", "TAG", "L", "DBIG"}
 PMacro  == {"P1", "P2a", "P2b", "Pbad"}
 Letters == {"w", "h", "a", "n", "xc", "uc", "Uc"}
-Digit   == {"0", "1", "2", "3", "DBIG"}                       \* '0' <= ch <= '9'
+Digit1  == {"0", "1", "2", "3", "4", "5", "6", "7", "8", "9"}
+Digit   == Digit1 \cup {"DBIG"}                       \* '0' <= ch <= '9'
 Alnum   == Letters \cup Digit \cup AlnumMacro
 NameCh  == Alnum \cup {"-", "_"}                               \* anchors, directive names, tag handles
 UriCh   == NameCh \cup {"up", "/", "?", ":", "@", "&", "+", ",", ".", "!", "*", "'", "[", "]", "%"} \cup PMacro
-Hex     == {"0", "1", "2", "3", "h", "a", "DBIG"}
+Hex     == Digit \cup {"h", "a"}
 Brk     == {"lf", "cr", "nel", "ls", "ps"}
 BrkZ    == Brk \cup {"Z"}                                     \* '\0\r\n\x85  '
 SpBrkZ  == BrkZ \cup {"sp"}                                   \* '\0 \r\n\x85  '
@@ -100,13 +158,12 @@ W(s) == CASE s = "X2" -> 3 [] s \in {"U4", "U4s"} -> 5 [] s \in {"U8", "U8s", "U
           [] OTHER -> 1
 C(s) == IF s \in PMacro THEN "%" ELSE s                       \* first character, for comparisons with an indicator
 
-\* a run of 4301 digits is only followed where the scanner reads a number as a whole (see design_parts/C03.md)
-ASSUME "DBIG" \in Alphabet => Alphabet \cap {"bs", "|", ">", "%", "!"} = {}
 
 NLc == -1
 SPc == -2
 Esc(q) == 10000 + q
 Uri(q) == 20000 + q
+Hex2(q) == 30000 + q            \* the two hex digits of URI-escape macro q, read as ordinary characters
 
 Last(s) == s[Len(s)]
 Front(s) == SubSeq(s, 1, Len(s) - 1)
@@ -156,8 +213,8 @@ Width(k) == IF k = 0 THEN 0 ELSE Width(k - 1) + W(inp[k])                \* char
 (* results of sub-scanners                                                 *)
 (***************************************************************************)
 NoErr == [kind |-> "-", c |-> NoMark, p |-> NoMark]
-Tok(k, s, e, a, b, x) == [k |-> k, s |-> s, e |-> e, a |-> a, b |-> b, x |-> x]
-NoTok == Tok("-", NoMark, NoMark, <<>>, <<>>, "")
+MkTok(k, s, e, a, b, x) == [k |-> k, s |-> s, e |-> e, a |-> a, b |-> b, x |-> x]
+NoTok == MkTok("-", NoMark, NoMark, <<>>, <<>>, "")
 Ok(r, tok)           == [t |-> "ok", rd |-> r, tok |-> tok, e |-> NoErr]
 Bad(r, kind, cm, pm) == [t |-> "err", rd |-> r, tok |-> NoTok, e |-> [kind |-> kind, c |-> cm, p |-> pm]]
 Boom(r, kind)        == [t |-> "crash", rd |-> r, tok |-> NoTok, e |-> [kind |-> kind, c |-> NoMark, p |-> Mk(r)]]
@@ -209,7 +266,7 @@ PlainLoop(r, fl, ind, chunks, spaces, endm, a) ==
 \* -> [t, rd, tok, e, ask]
 ScanPlain(r0, fl, indentNow) ==
   LET x == PlainLoop(r0, fl, indentNow + 1, <<>>, <<>>, Mk(r0), FALSE)
-  IN  [t |-> "ok", rd |-> x.rd, tok |-> Tok("Scalar", Mk(r0), x.endm, x.v, <<>>, "plain"), e |-> NoErr, ask |-> x.ask]
+  IN  [t |-> "ok", rd |-> x.rd, tok |-> MkTok("Scalar", Mk(r0), x.endm, x.v, <<>>, "plain"), e |-> NoErr, ask |-> x.ask]
 
 (***************************************************************************)
 (* scan_flow_scalar and its parts                                          *)
@@ -225,9 +282,10 @@ HexRun(q, k) == k = 0 \/ (Sym(q) \in Hex /\ HexRun(q + 1, k - 1))
 HexEscape(r, start, s, q) ==
   LET n == EscLen(s)
       d(k) == Sym(r.p + k - 1)
-      huge == n = 8 /\ d(1) \in {"h", "a"}
+      huge == n = 8 /\ d(1) \in {"8", "9", "h", "a"}
       big  == n = 8 /\ ~huge /\ ~(d(1) = "0" /\ d(2) = "0" /\ (d(3) = "0" \/ (d(3) = "1" /\ d(4) = "0")))
   IN  IF ~HexRun(r.p, n) THEN BadV(r, "escape_hex", start, Mk(r))
+      ELSE IF (huge \/ big) /\ FixD1 THEN BadV(r, "escape_range", start, Mk(r))
       ELSE IF huge THEN BoomV(r, "OverflowError: chr() of a code above 2^31")
       ELSE IF big THEN BoomV(r, "ValueError: chr() of a code above 0x10FFFF")
       ELSE OkV(FwdTo(r, r.p + n), <<Esc(q)>>)
@@ -243,6 +301,8 @@ FlowNonSpaces(r, dbl, start, acc) ==
         LET r2 == Fwd(r1)
             e == Sym(r2.p)
         IN  IF e \in EscName THEN FlowNonSpaces(Fwd(r2), dbl, start, Append(acc1, Esc(r2.p + 1)))
+            ELSE IF e \in {"U8big", "U8huge"} /\ FixD1              \* raised after forward() over the letter U
+                 THEN BadV(r2, "escape_range", start, [i |-> r2.i + 1, l |-> r2.l, c |-> r2.c + 1])
             ELSE IF e = "U8big" THEN BoomV(r2, "ValueError: chr() of a code above 0x10FFFF")
             ELSE IF e = "U8huge" THEN BoomV(r2, "OverflowError: chr() of a code above 2^31")
             ELSE IF e \in EscMacro THEN FlowNonSpaces(Fwd(r2), dbl, start, Append(acc1, Esc(r2.p + 1)))
@@ -281,7 +341,7 @@ ScanFlowScalar(r0, dbl) ==
   IN  IF n.t # "ok" THEN AsTok(n)
       ELSE LET x == FlowLoop(n.rd, dbl, start, quote, n.v) IN
            IF x.t # "ok" THEN AsTok(x)
-           ELSE LET r9 == Fwd(x.rd) IN Ok(r9, Tok("Scalar", start, Mk(r9), x.v, <<>>, quote))
+           ELSE LET r9 == Fwd(x.rd) IN Ok(r9, MkTok("Scalar", start, Mk(r9), x.v, <<>>, quote))
 
 (***************************************************************************)
 (* scan_anchor (ALIAS / ANCHOR)                                            *)
@@ -293,7 +353,7 @@ ScanAnchor(r0, kind) ==
       r2 == FwdTo(r1, q)
   IN  IF q = r1.p THEN Bad(r1, "anchor_name", start, Mk(r1))
       ELSE IF Sym(q) \notin AnchorEnd THEN Bad(r2, "anchor_end", start, Mk(r2))
-      ELSE Ok(r2, Tok(kind, start, Mk(r2), Copies(r1.p, q), <<>>, ""))
+      ELSE Ok(r2, MkTok(kind, start, Mk(r2), Copies(r1.p, q), <<>>, ""))
 
 (***************************************************************************)
 (* scan_tag_handle, scan_tag_uri, scan_uri_escapes, scan_tag               *)
@@ -310,7 +370,7 @@ UriEscapes(r, start, m0, items, cls) ==
        LET r1 == Fwd(r) IN
        IF ~(Sym(r1.p) \in Hex /\ Sym(r1.p + 1) \in Hex) THEN BadV(r1, "uri_hex", start, Mk(r1))
        ELSE UriEscapes(Fwd(Fwd(r1)), start, m0, Append(items, Uri(r.p + 1)),
-                       Append(cls, IF Sym(r1.p) \in {"h", "a"} THEN "cont" ELSE "P1"))
+                       Append(cls, IF Sym(r1.p) \in {"8", "9", "h", "a"} THEN "cont" ELSE "P1"))
   ELSE IF Utf8Ok(cls) THEN OkV(r, items) ELSE BadV(r, "uri_utf8", start, m0)       \* UnicodeDecodeError is caught
 
 \* q = r.p + length
@@ -340,7 +400,7 @@ ScanTag(r0) ==
   LET start == Mk(r0)
       ch == Sym(r0.p + 1)
       fin(r, h, sfx, hx) == IF Sym(r.p) \notin SpBrkZ THEN Bad(r, "tag_end", start, Mk(r))
-                            ELSE Ok(r, Tok("Tag", start, Mk(r), h, sfx, hx))
+                            ELSE Ok(r, MkTok("Tag", start, Mk(r), h, sfx, hx))
   IN  IF ch = "<" THEN
         LET u == ScanTagUri(Fwd(Fwd(r0)), start) IN
         IF u.t # "ok" THEN AsTok(u)
@@ -359,7 +419,8 @@ ScanTag(r0) ==
 DirNumber(r, start) ==
   IF Sym(r.p) \notin Digit THEN BadV(r, "dir_digit", start, Mk(r))
   ELSE LET q == RunEnd(r.p, Digit) IN
-       IF \E j \in r.p .. q - 1 : Sym(j) = "DBIG" THEN BoomV(r, "ValueError: int() of more than 4300 digits")
+       IF FixD10 /\ Width(q) - Width(r.p) > 9 THEN BadV(r, "dir_number_long", start, Mk(r))
+       ELSE IF \E j \in r.p .. q - 1 : Sym(j) = "DBIG" THEN BoomV(r, "ValueError: int() of more than 4300 digits")
        ELSE OkV(FwdTo(r, q), Copies(r.p, q))
 \* scan_directive_ignored_line
 DirIgnored(r, start) ==
@@ -371,12 +432,13 @@ ScanDirective(r0) ==
       r1 == Fwd(r0)
       q == RunEnd(r1.p, NameCh)
       r2 == FwdTo(r1, q)
-      name == Copies(r1.p, q)
+      pm == Sym(r0.p) \in PMacro            \* '%41' at column 0 is the directive '%' followed by the name '41...'
+      name == (IF pm THEN <<Hex2(r0.p + 1)>> ELSE <<>>) \o Copies(r1.p, q)
       fin(r, endm, a, b, x) == LET g == DirIgnored(r, start) IN
-                               IF g.t # "ok" THEN AsTok(g) ELSE Ok(g.rd, Tok("Directive", start, endm, a, b, x))
-  IN  IF q = r1.p THEN Bad(r1, "dir_name", start, Mk(r1))
+                               IF g.t # "ok" THEN AsTok(g) ELSE Ok(g.rd, MkTok("Directive", start, endm, a, b, x))
+  IN  IF q = r1.p /\ ~pm THEN Bad(r1, "dir_name", start, Mk(r1))
       ELSE IF Sym(q) \notin SpBrkZ THEN Bad(r2, "dir_name", start, Mk(r2))
-      ELSE IF q = r1.p + 1 /\ Sym(r1.p) = "YAML" THEN
+      ELSE IF ~pm /\ q = r1.p + 1 /\ Sym(r1.p) = "YAML" THEN
         LET ma == DirNumber(Skip(r2, {"sp"}), start) IN
         IF ma.t # "ok" THEN AsTok(ma)
         ELSE IF Sym(ma.rd.p) # "." THEN Bad(ma.rd, "dir_dot", start, Mk(ma.rd))
@@ -384,7 +446,7 @@ ScanDirective(r0) ==
              IF mi.t # "ok" THEN AsTok(mi)
              ELSE IF Sym(mi.rd.p) \notin SpBrkZ THEN Bad(mi.rd, "dir_digit_sp", start, Mk(mi.rd))
              ELSE fin(mi.rd, Mk(mi.rd), ma.v, mi.v, "YAML")
-      ELSE IF q = r1.p + 1 /\ Sym(r1.p) = "TAG" THEN
+      ELSE IF ~pm /\ q = r1.p + 1 /\ Sym(r1.p) = "TAG" THEN
         LET h == ScanTagHandle(Skip(r2, {"sp"}), start) IN
         IF h.t # "ok" THEN AsTok(h)
         ELSE IF Sym(h.rd.p) # "sp" THEN Bad(h.rd, "dir_sp", start, Mk(h.rd))
@@ -397,11 +459,12 @@ ScanDirective(r0) ==
 (***************************************************************************)
 (* scan_block_scalar and its parts                                         *)
 (***************************************************************************)
-IncOf(s) == CASE s = "1" -> 1 [] s = "2" -> 2 [] s = "3" -> 3 [] OTHER -> 0
+IncOf(s) == CASE s = "1" -> 1 [] s = "2" -> 2 [] s = "3" -> 3 [] s = "4" -> 4 [] s = "5" -> 5 [] s = "6" -> 6
+              [] s = "7" -> 7 [] s = "8" -> 8 [] s = "9" -> 9 [] OTHER -> 0
 \* scan_block_scalar_indicators -> [t, rd, chomp ("clip" | "keep" | "strip"), inc (0 = None), e]
 BlockIndicators(r, start) ==
   LET s == Sym(r.p)
-      isdig(x) == x \in {"0", "1", "2", "3"}
+      isdig(x) == x \in Digit1
       zero(rr) == [t |-> "err", rd |-> rr, chomp |-> "clip", inc |-> 0, e |-> [kind |-> "block_zero", c |-> start, p |-> Mk(rr)]]
       fin(rr, ch, inc) == IF Sym(rr.p) \notin SpBrkZ
                           THEN [t |-> "err", rd |-> rr, chomp |-> ch, inc |-> inc, e |-> [kind |-> "block_indicator", c |-> start, p |-> Mk(rr)]]
@@ -464,7 +527,7 @@ ScanBlockScalar(r0, style, indentNow) ==
                b0 == IF hd.inc = 0 THEN [rd |-> ia.rd, v |-> ia.v, endm |-> ia.endm] ELSE BlockBreaks(ig.rd, ind)
                x == BlockLoop(b0.rd, ind, style = ">", <<>>, b0.v, b0.endm, <<>>)
                v == x.chunks \o (IF hd.chomp # "strip" THEN x.lb ELSE <<>>) \o (IF hd.chomp = "keep" THEN x.br ELSE <<>>)
-           IN  Ok(x.rd, Tok("Scalar", start, x.endm, v, <<>>, style))
+           IN  Ok(x.rd, MkTok("Scalar", start, x.endm, v, <<>>, style))
 
 (***************************************************************************)
 (* the scanner object as a record, so that methods are functions           *)
@@ -484,7 +547,7 @@ InsertAt(s, k, x) == LET n == Len(s)
                      IN  SubSeq(s, 1, j) \o <<x>> \o SubSeq(s, j + 1, n)
 \* a token made of the next n symbols
 Punct(r, kind, n) == LET r1 == FwdTo(r.rd, r.rd.p + n) IN
-                     [Push(r, Tok(kind, Here(r), Mk(r1), <<>>, <<>>, "")) EXCEPT !.rd = r1]
+                     [Push(r, MkTok(kind, Here(r), Mk(r1), <<>>, <<>>, "")) EXCEPT !.rd = r1]
 \* the result of a sub-scanner becomes the state of the scanner
 Absorb(r, x) == IF x.t = "ok" THEN [Push(r, x.tok) EXCEPT !.rd = x.rd]
                 ELSE IF x.t = "err" THEN [r EXCEPT !.res = "error", !.err = x.e, !.rd = x.rd]
@@ -528,7 +591,7 @@ RECURSIVE UnwindIndent(_, _)
 UnwindIndent(r, col) ==
   IF r.flow # 0 \/ ~(r.indent > col) THEN r
   ELSE IF r.indents = <<>> THEN CrashR(r, "IndexError: pop from empty list (indents)")
-  ELSE UnwindIndent([Push(r, Tok("BlockEnd", Here(r), Here(r), <<>>, <<>>, "")) EXCEPT
+  ELSE UnwindIndent([Push(r, MkTok("BlockEnd", Here(r), Here(r), <<>>, <<>>, "")) EXCEPT
                        !.indent = Last(r.indents), !.indents = Front(r.indents), !.rd.wk = @ + 1], col)
 AddIndent(r, col) == IF r.indent < col THEN [r EXCEPT !.indents = Append(@, r.indent), !.indent = col] ELSE r
 
@@ -552,7 +615,7 @@ ScanToNextToken(r) ==
 FetchStreamEnd(r) ==
   LET r2 == Then(UnwindIndent(r, -1), RemovePossibleSimpleKey) IN
   IF r2.res # "run" THEN r2
-  ELSE [Push(r2, Tok("StreamEnd", Here(r2), Here(r2), <<>>, <<>>, "")) EXCEPT !.ask = FALSE, !.keys = <<>>, !.done = TRUE]
+  ELSE [Push(r2, MkTok("StreamEnd", Here(r2), Here(r2), <<>>, <<>>, "")) EXCEPT !.ask = FALSE, !.keys = <<>>, !.done = TRUE]
 FetchDirective(r) ==
   LET r2 == Then(UnwindIndent(r, -1), RemovePossibleSimpleKey) IN
   IF r2.res # "run" THEN r2 ELSE Absorb([r2 EXCEPT !.ask = FALSE], ScanDirective(r2.rd))
@@ -572,7 +635,7 @@ FetchFlowEntry(r) ==
 BlockStart(r, kind, why) ==
   IF r.flow # 0 THEN r
   ELSE IF ~r.ask THEN Fail(r, why, NoMark, Here(r))
-  ELSE IF r.indent < r.rd.c THEN Push(AddIndent(r, r.rd.c), Tok(kind, Here(r), Here(r), <<>>, <<>>, ""))
+  ELSE IF r.indent < r.rd.c THEN Push(AddIndent(r, r.rd.c), MkTok(kind, Here(r), Here(r), <<>>, <<>>, ""))
   ELSE r
 FetchBlockEntry(r) ==
   LET r1 == BlockStart(r, "BlockSequenceStart", "seq_not_allowed") IN
@@ -590,14 +653,14 @@ FetchValue(r) ==
            km == KeyMark(k)
            at == k.tn - r.taken
            r1 == [r EXCEPT !.keys = Restrict(@, DOMAIN @ \ {r.flow}),
-                           !.toks = InsertAt(@, at, Tok("Key", km, km, <<>>, <<>>, ""))]
+                           !.toks = InsertAt(@, at, MkTok("Key", km, km, <<>>, <<>>, ""))]
            r2 == IF r.flow = 0 /\ r1.indent < k.c
-                 THEN [AddIndent(r1, k.c) EXCEPT !.toks = InsertAt(@, at, Tok("BlockMappingStart", km, km, <<>>, <<>>, ""))]
+                 THEN [AddIndent(r1, k.c) EXCEPT !.toks = InsertAt(@, at, MkTok("BlockMappingStart", km, km, <<>>, <<>>, ""))]
                  ELSE r1
        IN  Punct([r2 EXCEPT !.ask = FALSE], "Value", 1)
   ELSE IF r.flow = 0 /\ ~r.ask THEN Fail(r, "value_not_allowed", NoMark, Here(r))
   ELSE LET r1 == IF r.flow = 0 /\ r.indent < r.rd.c
-                 THEN Push(AddIndent(r, r.rd.c), Tok("BlockMappingStart", Here(r), Here(r), <<>>, <<>>, ""))
+                 THEN Push(AddIndent(r, r.rd.c), MkTok("BlockMappingStart", Here(r), Here(r), <<>>, <<>>, ""))
                  ELSE r
            r2 == RemovePossibleSimpleKey([r1 EXCEPT !.ask = (r.flow = 0)])
        IN  IF r2.res # "run" THEN r2 ELSE Punct(r2, "Value", 1)
@@ -668,12 +731,12 @@ Apply(r, nextpc, name) ==
   /\ indent' = r.indent /\ indents' = r.indents /\ ask' = r.ask /\ keys' = r.keys /\ res' = r.res /\ err' = r.err
   /\ pc' = IF r.res = "run" THEN nextpc ELSE "end"
   /\ path' = IF name = "" THEN path ELSE Append(path, name)
-  /\ UNCHANGED <<inp, out, mon>>
+  /\ UNCHANGED <<focus, inp, out, mon>>
 
 \* the environment writes the input, one symbol at a time, then hands it to the reader
 Extend == /\ pc = "grow" /\ Len(inp) < Len(Prefix) + MaxLen
           /\ \E s \in Alphabet : inp' = Append(inp, s)
-          /\ UNCHANGED <<pc, rd, done, flow, toks, taken, indent, indents, ask, keys, out, res, err, mon, path>>
+          /\ UNCHANGED <<focus, pc, rd, done, flow, toks, taken, indent, indents, ask, keys, out, res, err, mon, path>>
 \* Reader.__init__ / check_printable: the whole (small) input is checked before the first token is asked for
 NonPrintables == {j \in 1 .. Len(inp) : inp[j] = "np"}
 ReaderError == LET j == CHOOSE x \in NonPrintables : \A y \in NonPrintables : x <= y
@@ -682,7 +745,7 @@ ReaderCheck ==
   /\ pc = "grow" /\ Fine
   /\ IF NonPrintables = {} THEN pc' = "need" /\ UNCHANGED <<res, err>>
      ELSE pc' = "end" /\ res' = "reader_error" /\ err' = ReaderError
-  /\ UNCHANGED <<inp, rd, done, flow, toks, taken, indent, indents, ask, keys, out, mon, path>>
+  /\ UNCHANGED <<focus, inp, rd, done, flow, toks, taken, indent, indents, ask, keys, out, mon, path>>
 
 \* get_token / check_token: while self.need_more_tokens(): self.fetch_more_tokens()
 Need == /\ pc = "need"
@@ -693,7 +756,7 @@ Take == /\ pc = "take"
            ELSE /\ out' = Append(out, Head(toks)) /\ toks' = Tail(toks) /\ taken' = taken + 1
                 /\ mon' = TG!TGStep(mon, Head(toks).k) /\ pc' = "need" /\ UNCHANGED res
         /\ rd' = [rd EXCEPT !.wk = @ + 1]
-        /\ UNCHANGED <<inp, done, flow, indent, indents, ask, keys, err, path>>
+        /\ UNCHANGED <<focus, inp, done, flow, indent, indents, ask, keys, err, path>>
 
 AScanToNextToken == pc = "scan" /\ Apply(ScanToNextToken(R), "stale", "")
 AStalePossibleSimpleKeys == pc = "stale" /\ Apply(StalePossibleSimpleKeys(R), "unwind", "")
@@ -769,11 +832,11 @@ Run ==
           /\ rd' = z.r.rd /\ done' = z.r.done /\ flow' = z.r.flow /\ toks' = z.r.toks /\ taken' = z.r.taken
           /\ indent' = z.r.indent /\ indents' = z.r.indents /\ ask' = z.r.ask /\ keys' = z.r.keys
           /\ res' = z.r.res /\ err' = z.r.err /\ out' = z.out /\ mon' = z.mon /\ path' = z.path
-  /\ pc' = "end" /\ UNCHANGED inp
+  /\ pc' = "end" /\ UNCHANGED <<focus, inp>>
 
-Init == /\ inp = Prefix /\ pc = "grow" /\ rd = [p |-> 0, i |-> 0, l |-> 0, c |-> 0, wk |-> 0]
+Init == /\ focus \in Focuses /\ inp = Prefix /\ pc = "grow" /\ rd = [p |-> 0, i |-> 0, l |-> 0, c |-> 0, wk |-> 0]
         /\ done = FALSE /\ flow = 0 /\ taken = 0 /\ indent = -1 /\ indents = <<>> /\ ask = TRUE /\ keys = <<>>
-        /\ toks = <<Tok("StreamStart", [i |-> 0, l |-> 0, c |-> 0], [i |-> 0, l |-> 0, c |-> 0], <<>>, <<>>, "")>>
+        /\ toks = <<MkTok("StreamStart", [i |-> 0, l |-> 0, c |-> 0], [i |-> 0, l |-> 0, c |-> 0], <<>>, <<>>, "")>>
         /\ out = <<>> /\ res = "run" /\ err = NoErr /\ mon = TG!TGInit /\ path = <<>>
 
 Next == \/ Extend \/ ReaderCheck \/ Need \/ Take \/ Run
